@@ -184,6 +184,8 @@ static void blk_sign(void) {
 		{ uint8_t m2[1024]; memcpy(m2, MSGBUF, ml + 1); if (ml) { m2[ml - 1] ^= 0x80; vh_evals++; vh_nontriv++; if (lib_verify(&M, (const char *)IDBUF, idl, m2, ml, sig, sl) == 1) vh_viol("C17:verify:other-message-accepted", "\"case\":\"%s\"", cs); } vh_evals++; if (lib_verify(&M, (const char *)IDBUF, idl, MSGBUF, ml + 1, sig, sl) == 1) vh_viol("C17:verify:extended-message-accepted", "\"case\":\"%s\"", cs); }
 		{ SM9_SIGN_MASTER_KEY M2; to_z(M2.ks, SC[3].b); sm9_z256_twist_point_mul_generator(&M2.Ppubs, M2.ks); vh_evals++; if (lib_verify(&M2, (const char *)IDBUF, idl, MSGBUF, ml, sig, sl) == 1) vh_viol("C17:verify:other-master-key-accepted", "\"case\":\"%s\"", cs); }
 		if (ii <= 2 && mi <= 2 && (ri == 3 || vh_thorough)) for (size_t bit = 0; bit < sl * 8; bit++) { uint8_t t[200]; memcpy(t, sig, sl); t[bit / 8] ^= (uint8_t)(1 << (bit % 8)); vh_evals++; vh_nontriv++; if (lib_verify(&M, (const char *)IDBUF, idl, MSGBUF, ml, t, sl) == 1) vh_viol("C17:verify:bit-flipped-signature-accepted", "\"case\":\"%s\",\"bit\":%zu", cs, bit); }
+		/* bytes behind the signature: the byte string as a whole is then not a signature */
+		{ uint8_t t[260]; memcpy(t, sig, sl); static const size_t EX[] = { 1, 2, 32 }; for (int x = 0; x < 3; x++) { memset(t + sl, x ? 0x30 : 0x00, EX[x]); vh_evals++; vh_nontriv++; if (lib_verify(&M, (const char *)IDBUF, idl, MSGBUF, ml, t, sl + EX[x]) == 1) vh_viol("C17:verify:signature-with-trailing-bytes-accepted", "\"case\":\"%s\",\"extra\":%zu", cs, EX[x]); } memcpy(t + sl, sig, sl > 100 ? 100 : sl); vh_evals++; if (lib_verify(&M, (const char *)IDBUF, idl, MSGBUF, ml, t, sl + (sl > 100 ? 100 : sl)) == 1) vh_viol("C17:verify:signature-with-trailing-bytes-accepted", "\"case\":\"%s\",\"extra\":\"copy-of-itself\"", cs); if (sl > 1) { vh_evals++; if (lib_verify(&M, (const char *)IDBUF, idl, MSGBUF, ml, sig, sl - 1) == 1) vh_viol("C17:verify:truncated-signature-accepted", "\"case\":\"%s\"", cs); } }
 		/* algebraic variants of (h,S): h+N cannot be encoded; S negated, h+1 */
 		{ SM9_SIGNATURE T = S; sm9_z256_point_neg(&T.S, &S.S); uint8_t d[200], *p = d; size_t dl = 0; sm9_signature_to_der(&T, &p, &dl); vh_evals++; if (lib_verify(&M, (const char *)IDBUF, idl, MSGBUF, ml, d, dl) == 1) vh_viol("C17:verify:negated-S-accepted", "\"case\":\"%s\"", cs); }
 	}
@@ -201,6 +203,8 @@ static void blk_enc(void) {
 		/* negatives: another identity's key, the key used under another identity string, every bit of the ciphertext */
 		{ uint8_t id2[8192]; memcpy(id2, id, idl); id2[0] ^= 2; SM9_ENC_KEY K2; if (sm9_enc_master_key_extract_key(&M, (const char *)id2, idl, &K2) == 1) { vh_evals++; vh_nontriv++; if (sm9_decrypt(&K2, (const char *)id2, idl, ct, cl, out, &ol) == 1) vh_viol("C17:enc:other-identity-key-decrypts", "\"case\":\"%s\"", cs); vh_evals++; if (sm9_decrypt(&K2, (const char *)id, idl, ct, cl, out, &ol) == 1) vh_viol("C17:enc:other-identity-key-decrypts-under-right-name", "\"case\":\"%s\"", cs); } vh_evals++; if (sm9_decrypt(&K, (const char *)id2, idl, ct, cl, out, &ol) == 1) vh_viol("C17:enc:decrypts-under-wrong-identity-string", "\"case\":\"%s\"", cs); }
 		if (ii <= 1 && pi <= 3 && (ri == 2 || vh_thorough)) for (size_t bit = 0; bit < cl * 8; bit++) { uint8_t t[600]; memcpy(t, ct, cl); t[bit / 8] ^= (uint8_t)(1 << (bit % 8)); vh_evals++; vh_nontriv++; size_t o2 = 0; if (sm9_decrypt(&K, (const char *)id, idl, t, cl, out, &o2) == 1) vh_viol("C17:enc:bit-flipped-ciphertext-accepted", "\"case\":\"%s\",\"bit\":%zu", cs, bit); }
+		/* bytes behind the ciphertext, and a ciphertext cut by one byte */
+		{ uint8_t t[700]; memcpy(t, ct, cl); size_t o2 = 0; static const size_t EX[] = { 1, 16 }; for (int x = 0; x < 2; x++) { memset(t + cl, x ? 0x04 : 0x00, EX[x]); vh_evals++; vh_nontriv++; if (sm9_decrypt(&K, (const char *)id, idl, t, cl + EX[x], out, &o2) == 1) vh_viol("C17:enc:ciphertext-with-trailing-bytes-accepted", "\"case\":\"%s\",\"extra\":%zu", cs, EX[x]); } vh_evals++; if (cl > 1 && sm9_decrypt(&K, (const char *)id, idl, ct, cl - 1, out, &o2) == 1) vh_viol("C17:enc:truncated-ciphertext-accepted", "\"case\":\"%s\"", cs); }
 		/* KEM alone: several key lengths */
 		for (int kl = 0; kl < 4; kl++) { static const size_t KL[4] = { 1, 16, 32, 100 }; uint8_t kb[100], kb2[100], kex[200]; SM9_Z256_POINT C; venv_reset(29); script_r(SC[RI[ri]].b); if (sm9_kem_encrypt(&M, (const char *)id, idl, KL[kl], kb, &C) != 1) { vh_viol("C17:kem:encrypt-failed", "\"case\":\"%s\"", cs); continue; } uint8_t kl4[4] = { 0, 0, 0, (uint8_t)KL[kl] }; int ml2 = mq(kex, 200, "kem %s %s %s %s", HX(SC[KE[ki]].b, 32), hxn(id, idl), HX(SC[RI[ri]].b, 32), HX(kl4, 4)); uint8_t cb[65]; g1_ser(cb, &C); vh_evals++; vh_nontriv++; if (ml2 != (int)(65 + KL[kl]) || memcmp(cb, kex, 65) || memcmp(kb, kex + 65, KL[kl])) vh_viol("C17:kem:differs-from-model", "\"case\":\"%s\",\"klen\":%zu", cs, KL[kl]); if (sm9_kem_decrypt(&K, (const char *)id, idl, &C, KL[kl], kb2) != 1 || memcmp(kb, kb2, KL[kl])) vh_viol("C17:kem:roundtrip", "\"case\":\"%s\",\"klen\":%zu", cs, KL[kl]); }
 	}
